@@ -61,7 +61,7 @@ CHECKS = {
  "C13": dict(engine="E4", ref="8/C13",
    technique="bounded-exhaustive enumeration of all line-sequence pairs x all context sizes, chunk replay oracle",
    text="Every pair over small alphabets and every n: chunks after New/AddContext/Unify replay exactly to their ranges, context bounded by n, ordering/disjointness, splice gives Right, Edits undisturbed.",
-   note="Alphabets {a,b},{a,b,c}; lengths per tier; Left and Right as views of one array."+LONG+"files of 12..300/2500 lines with an edit every gap+1 lines, and of 33,000/65,600 lines."),
+   note="Alphabets {a,b},{a,b,c}; lengths per tier; Left and Right as views of one array; AddContext called a second time on chunks that already overlap."+LONG+"files of 12..300/2500 lines with an edit every gap+1 lines, and of 33,000/65,600 lines."),
  "C14": dict(engine="E4", ref="8/C14",
    technique="bounded-exhaustive enumeration of diffs incl. hostile lines: format/parse round trip and reference patch appliers (GNU patch as second verdict)",
    text="Every enumerated diff is formatted (normal/unified/context), parsed back, re-formatted byte-identically and applied to Left by reference appliers written from the diffutils manual; /usr/bin/patch gives a second verdict when present.",
@@ -85,11 +85,11 @@ CHECKS = {
  "C19": dict(engine="E2", ref="8/C19",
    technique="exhaustive enumeration of all behaviour-relevant random outcomes (choice tree over the RNG) on the real Counter with exact rational probability propagation",
    text="For every stream within bounds the real Counter is run under every partition class of the random source; exact regime, Len<=size, Count=Len*2^k monotone, and E[Count]==true distinct count exactly (rational arithmetic), plus per-step martingale conditions.",
-   note="RNG injected through an overlay-added constructor; the order of the halving pass is chosen by the harness through a one-line source transformation; which bits of a random word matter is probed, and the threshold use of the keep test is verified - otherwise the configuration is reported exhaustive:false instead of judged."),
+   note="RNG injected through an overlay-added constructor; the order of the halving pass is chosen by the harness through a one-line source transformation; which bits of a random word matter is probed, and the threshold use of the keep test is verified - otherwise the configuration is reported exhaustive:false instead of judged. Two side harnesses use the real constructor: the exact regime for element types any, *int and string (all streams <= 5/6 incl. the nil interface), and one fixed execution that four counters from NewCounter do not replay one another's random outcomes (precondition of the statistical clause; not an enumeration)."),
  "C20": dict(engine="E4", ref="8/C20",
    technique="bounded-exhaustive enumeration of byte slices at all alignments with guard bytes; all strings/cut points; full transitivity cube",
    text="Every length/alignment/zero-pattern for mbits with both guard values; every string over mixed-width runes and every cut for Trunc; all triples for CompareNatural.",
-   note="Lengths per tier; checkptr build for allocation-edge reads; digit runs up to 18 digits under common prefixes of every length 0..17."+LONG+"byte slices up to 300/4097."),
+   note="Lengths per tier; checkptr build for allocation-edge reads; digit runs up to 18 digits under common prefixes of every length 0..17; leading runs of equal value must leave the answer to the remainders."+LONG+"byte slices up to 300/4097."),
 }
 
 def main():
